@@ -16,7 +16,8 @@ RULE = ('every single-field corruption of a valid descriptor (file missing/empty
         'data file length changed by every amount from -all to +2 items incl. non-multiples of the item size; shape '
         'changed to shapes of different product) x array kinds {1-D, N-D, empty first axis, values/ and indices/ of a '
         'ragged array} x consumers {Array / RaggedArray constructor and darr.open in modes r and r+, delete by path, truncate by path}; '
-        'each (corruption, consumer) pair on a fresh copy; distinct by (kind, corruption, consumer); all are non-trivial')
+        'each (corruption, consumer) pair on a fresh copy - and, for one base, on a directory this process has already opened, '
+        'corrupted in place with the modification time preserved; distinct by (kind, corruption, consumer); all are non-trivial')
 EXHAUSTIVE = True
 EXHAUSTIVE_PART = 'the enumerated single-field corruption catalogue x array kinds x consumers'
 ASSUMPTIONS = ['consistent-but-different descriptors (same item size, same element count) are valid descriptions, not corruptions',
@@ -135,6 +136,10 @@ def cases(tier, seed):
             for ci in range(len(catalogue(kind, nt, bo))):
                 for cons in consumers(kind):
                     yield {'kind': kind, 'numtype': nt, 'bo': bo, 'ci': ci, 'consumer': cons}
+                    if (nt, bo) == base_params(tier)[0] and not cons.endswith('r+'):
+                        # the same process has already opened the (then valid) directory; the corruption is made in
+                        # place and keeps the modification time, as an editor or `cp -p` / `rsync -t` would
+                        yield {'kind': kind, 'numtype': nt, 'bo': bo, 'ci': ci, 'consumer': cons, 'warm': True}
             tops = TOP_CORR if kind in ('1d', 'ragged-values') else []
             for ti in range(len(tops)):
                 yield {'kind': kind, 'numtype': nt, 'bo': bo, 'top': ti, 'consumer': 'open'}
@@ -222,7 +227,18 @@ def run_case(case, env):
     try:
         work = d / 'arr'
         shutil.copytree(base, work)
+        if case.get('warm'):
+            try:
+                D.open(work)
+                (D.RaggedArray if kind.startswith('ragged') else D.Array)(work)[0 if kind != 'empty' else slice(None)]
+            except Exception:
+                pass
+            times = {p_: (p_.stat().st_atime_ns, p_.stat().st_mtime_ns) for p_ in work.rglob('*') if p_.is_file()}
         apply(work / sub if sub else work, action)
+        if case.get('warm'):
+            for p_, t_ in times.items():
+                if p_.exists():
+                    os.utime(p_, ns=t_)
         before = snapshot(work)
         res.dim('corruption_class', cls)
         res.dim('kind', kind)
@@ -268,7 +284,8 @@ def run_case(case, env):
             res.fail(f'modified:{cons}:{cls}', f'{cons} changed a corrupted directory ({tag}): {snapdiff(before, after)}',
                      corruption=name, kind=kind)
         res.nontrivial = True
-        res.sig = repr((kind, nt, bo, name, cons))
+        res.sig = repr((kind, nt, bo, name, cons, bool(case.get('warm'))))
+        res.dim('warm', 'already opened by this process' if case.get('warm') else 'first open')
         return res
     finally:
         env.scratch.drop(d)
